@@ -106,3 +106,22 @@ Definition tm_step (s : tstate) (o : top) : tstate :=
   end.
 
 Definition tm_run (ops : list top) : tstate := fold_left tm_step ops tm_init.
+
+(* ---- the trigger as its user sees it (engine `trigger`): register / stop in quick succession, then let time pass
+   until everything that is armed has fired and been read. [tm_settle] runs the current instance, if it is still
+   pending, through fire / check / deliver; stopped and superseded instances never fire. The observable is the list of
+   pairs the channel reader received, oldest first. *)
+Inductive pop := PRegister (h v : N) | PStop | PSettle.
+Definition tm_settle (s : tstate) : tstate :=
+  match tm_cur s with
+  | Some i => match nth_error (tm_insts s) i with
+              | Some x => match ti_phase x with
+                          | TPending => tm_step (tm_step (tm_step s (TFire i)) (TCheck i)) (TDeliver i)
+                          | _ => s end
+              | None => s end
+  | None => s
+  end.
+Definition tm_pstep (s : tstate) (o : pop) : tstate :=
+  match o with PRegister h v => tm_register h v s | PStop => tm_stop s | PSettle => tm_settle s end.
+Definition tm_public_run (ops : list pop) : list (N * N) :=
+  rev (map (fun d => (snd (fst d), snd d)) (tm_delivered (fold_left tm_pstep ops tm_init))).
